@@ -123,6 +123,7 @@ def prove(prop, log):
             res['translator'] = 'failed'
             res['broken'].append({'what': 'translator gen_tables.py failed', 'log': out[-2000:]})
             log('translator failed:\n' + out[-2000:])
+        run([sys.executable, os.path.join(VERIF, 'tools', 'mkdrv.py')], cwd=VERIF)
         rc, out = run(['lake', 'build', 'pcbvdriver'], cwd=LEAN)
         res['driver_ok'] = (rc == 0 and os.path.exists(DRIVER))
         if rc != 0:
@@ -275,10 +276,16 @@ class Ctx(object):
 
 
 def load_known_findings():
-    path = os.path.join(VERIF, 'known_findings.json')
-    if not os.path.exists(path):
-        return {'findings': [], 'fixed': []}
-    return json.load(open(path))
+    """The committed known-findings files (known_findings.d/*.json); never written at run time."""
+    res = {'findings': [], 'fixed': []}
+    d = os.path.join(VERIF, 'known_findings.d')
+    if os.path.isdir(d):
+        for fn in sorted(os.listdir(d)):
+            if fn.endswith('.json'):
+                k = json.load(open(os.path.join(d, fn)))
+                res['findings'] += k.get('findings', [])
+                res['fixed'] += k.get('fixed', [])
+    return res
 
 
 def match_finding(findings, prop, key):
